@@ -2,7 +2,8 @@
 times inside THIS process (whose PYTHONHASHSEED the harness chose):
 
   run A   after the global generators (random, numpy.random, torch) were put in state 1
-  run B   immediately afterwards, nothing re-seeded                 ("twice in one process")
+  run R   a second call of plan_on / train_on / run_on / the query on the SAME object run A built
+  run B   a fresh object immediately afterwards, nothing re-seeded  ("twice in one process")
   runs C  after the global generators were put in different states 2, 3, ... ("scrambled"; case["scrambles"] of them)
   run D   after the global generators were put back in state 1       (separates dependence on the
                                                                       global state from plain non-determinism)
@@ -213,77 +214,106 @@ def policy_table(policy, states):
 def c_laostar(spec, seed, par):
     from msdm.algorithms.laostar import LAOStar
     mdp = build_problem(spec)
-    res = LAOStar(heuristic=lambda s: 0.0, seed=seed,
-                  randomize_action_order=par.get("randomize_action_order", True),
-                  randomize_nextstate_order=par.get("randomize_nextstate_order", True),
-                  max_lao_star_iterations=par.get("max_iterations", 2000)).plan_on(mdp)
-    svm = res.state_value_map
-    return {"initial_value": res.initial_value, "state_value_map": svm, "iterations": res.iterations,
-            "converged": res.converged, "policy": policy_table(res.policy, list(svm.keys())),
-            "visit_order": res.explicit_graph.states_by_visitorder(),
-            "expanded_order": res.explicit_graph.states_by_expandedorder()}
+    planner = LAOStar(heuristic=lambda s: 0.0, seed=seed,
+                      randomize_action_order=par.get("randomize_action_order", True),
+                      randomize_nextstate_order=par.get("randomize_nextstate_order", True),
+                      max_lao_star_iterations=par.get("max_iterations", 2000))
+
+    def call():
+        res = planner.plan_on(mdp)
+        svm = res.state_value_map
+        return {"initial_value": res.initial_value, "state_value_map": svm, "iterations": res.iterations,
+                "converged": res.converged, "policy": policy_table(res.policy, list(svm.keys())),
+                "visit_order": res.explicit_graph.states_by_visitorder(),
+                "expanded_order": res.explicit_graph.states_by_expandedorder()}
+    return call
 
 
 def c_lrtdp(spec, seed, par):
     from msdm.algorithms.lrtdp import LRTDP
     mdp = build_problem(spec)
-    res = LRTDP(heuristic=lambda s: 0.0, seed=seed, iterations=par.get("iterations", 200),
-                randomize_action_order=par.get("randomize_action_order", True),
-                bellman_error_margin=1e-2).plan_on(mdp)
-    V = dict(res.V)
-    return {"V": V, "initial_value": res.initial_value, "Q": {s: dict(q) for s, q in res.Q.items()},
-            "policy": policy_table(res.policy, list(V.keys())), "action_orders": dict(res.action_orders),
-            "solved": dict(res.solved), "seed": res.seed}
+    planner = LRTDP(heuristic=lambda s: 0.0, seed=seed, iterations=par.get("iterations", 200),
+                    randomize_action_order=par.get("randomize_action_order", True),
+                    bellman_error_margin=1e-2)
+
+    def call():
+        res = planner.plan_on(mdp)
+        V = dict(res.V)
+        return {"V": V, "initial_value": res.initial_value, "Q": {s: dict(q) for s, q in res.Q.items()},
+                "policy": policy_table(res.policy, list(V.keys())), "action_orders": dict(res.action_orders),
+                "solved": dict(res.solved), "seed": res.seed}
+    return call
 
 
 def c_astar(spec, seed, par):
     from msdm.algorithms.search import AStarSearch
     mdp = build_problem(spec)
-    res = AStarSearch(heuristic_value=lambda s: 0, seed=seed,
-                      randomize_action_order=par.get("randomize_action_order", True),
-                      tie_breaking_strategy=par.get("tie_breaking_strategy", "random")).plan_on(mdp)
-    return {"path": res.path, "path_value": res.path_value, "visited": res.visited,
-            "policy": policy_table(res.policy, res.path[:-1]), "non_monotonic": res.non_monotonic_counter}
+    planner = AStarSearch(heuristic_value=lambda s: 0, seed=seed,
+                          randomize_action_order=par.get("randomize_action_order", True),
+                          tie_breaking_strategy=par.get("tie_breaking_strategy", "random"))
+
+    def call():
+        res = planner.plan_on(mdp)
+        return {"path": res.path, "path_value": res.path_value, "visited": res.visited,
+                "policy": policy_table(res.policy, res.path[:-1]), "non_monotonic": res.non_monotonic_counter}
+    return call
 
 
 def c_bfs(spec, seed, par):
     from msdm.algorithms.search import BreadthFirstSearch
     mdp = build_problem(spec)
-    res = BreadthFirstSearch(seed=seed, randomize_action_order=True).plan_on(mdp)
-    return {"path": res.path, "visited": res.visited, "policy": policy_table(res.policy, res.path[:-1])}
+    planner = BreadthFirstSearch(seed=seed, randomize_action_order=True)
+
+    def call():
+        res = planner.plan_on(mdp)
+        return {"path": res.path, "visited": res.visited, "policy": policy_table(res.policy, res.path[:-1])}
+    return call
 
 
 def c_td(spec, seed, par):
     from msdm.algorithms import tdlearning
-    out = {}
+    objs = []
     for name in par.get("learners", ["QLearning", "DoubleQLearning", "SARSA", "ExpectedSARSA"]):
-        mdp = build_problem(spec)
-        res = getattr(tdlearning, name)(episodes=par.get("episodes", 12), step_size=.5,
-                                        rand_choose=fl(par.get("rand_choose", "1/10")),
-                                        softmax_temp=fl(par.get("softmax_temp", "0")), seed=seed).train_on(mdp)
-        q = {s: dict(av) for s, av in res.q_values.items()}
-        out[name] = {"q": q, "episode_rewards": res.event_listener_results.episode_rewards,
-                     "policy": policy_table(res.policy, list(q.keys()))}
-    return out
+        objs.append((name, build_problem(spec),
+                     getattr(tdlearning, name)(episodes=par.get("episodes", 12), step_size=.5,
+                                               rand_choose=fl(par.get("rand_choose", "1/10")),
+                                               softmax_temp=fl(par.get("softmax_temp", "0")), seed=seed)))
+
+    def call():
+        out = {}
+        for name, mdp, learner in objs:
+            res = learner.train_on(mdp)
+            q = {s: dict(av) for s, av in res.q_values.items()}
+            out[name] = {"q": q, "episode_rewards": res.event_listener_results.episode_rewards,
+                         "policy": policy_table(res.policy, list(q.keys()))}
+        return out
+    return call
 
 
 def c_rmax(spec, seed, par):
     from msdm.algorithms.rmax import RMAX
     mdp = build_problem(spec)
-    res = RMAX(episodes=par.get("episodes", 8), rmax=1.0, num_transition_samples=par.get("m", 2), seed=seed).train_on(mdp)
-    q = {s: dict(av) for s, av in res.q_values.items()}
-    return {"q": q, "episode_rewards": res.event_listener_results.episode_rewards,
-            "policy": policy_table(res.policy, list(q.keys()))}
+    learner = RMAX(episodes=par.get("episodes", 8), rmax=1.0, num_transition_samples=par.get("m", 2), seed=seed)
+
+    def call():
+        res = learner.train_on(mdp)
+        q = {s: dict(av) for s, av in res.q_values.items()}
+        return {"q": q, "episode_rewards": res.event_listener_results.episode_rewards,
+                "policy": policy_table(res.policy, list(q.keys()))}
+    return call
 
 
 def c_bpi(spec, seed, par):
     from msdm.algorithms.fscboundedpolicyiteration import FSCBoundedPolicyIteration
     pomdp = build_problem(spec)
     learner = FSCBoundedPolicyIteration(controller_state_count=par.get("nodes", 2), iterations=par.get("iterations", 4), seed=seed)
-    res = learner.train_on(pomdp)
-    return {"value": res.value, "state_controller_value": res.state_controller_value, "converged": res.converged,
-            "action_strategy": res.policy.action_strategy, "observation_strategy": res.policy.observation_strategy,
-            "initial_state_dist": res.policy.initial_state_dist, "seed_used": int(learner.seed)}
+
+    def call():
+        res = learner.train_on(pomdp)
+        return {"value": res.value, "state_controller_value": res.state_controller_value, "converged": res.converged,
+                "action_strategy": res.policy.action_strategy, "observation_strategy": res.policy.observation_strategy,
+                "initial_state_dist": res.policy.initial_state_dist, "seed_used": learner.seed}
+    return call
 
 
 def c_ga(spec, seed, par):
@@ -291,10 +321,13 @@ def c_ga(spec, seed, par):
     pomdp = build_problem(spec)
     learner = FSCGradientAscent(controller_state_count=par.get("nodes", 2), iterations=par.get("iterations", 12),
                                 learning_rate=1e-1, seed=seed)
-    res = learner.train_on(pomdp)
-    return {"expected_value": res.value.expected_value, "action_logit": res.controller_logit.action,
-            "state_logit": res.controller_logit.state, "initial_logit": res.controller_logit.initial_state,
-            "seed_used": int(learner.seed)}
+
+    def call():
+        res = learner.train_on(pomdp)
+        return {"expected_value": res.value.expected_value, "action_logit": res.controller_logit.action,
+                "state_logit": res.controller_logit.state, "initial_logit": res.controller_logit.initial_state,
+                "seed_used": learner.seed}
+    return call
 
 
 def c_semimdp(spec, seed, par):
@@ -312,13 +345,16 @@ def c_semimdp(spec, seed, par):
                                            subgoals=[sub] + [g for g in sl if mdp.is_absorbing(g) and g != sub], planner=ValueIteration(max_iterations=200), name=name,
                                            max_steps=400, include_mdp_absorbing_states=True))
     smdp = SemiMarkovDecisionProcess(mdp=mdp, options=options, n_option_simulations=par.get("nsim", 12), seed=seed)
-    out = []
-    for s in sl[:par.get("nstates", 4)]:
-        for o in options:
-            if o.is_initial(s):
-                out.append([s, o.name, smdp.next_state_transit_time_reward_dist(s, o)])
-    out.append(["again", smdp.next_state_transit_time_reward_dist(sl[0], options[-1])])
-    return out
+
+    def call():
+        out = []
+        for s in sl[:par.get("nstates", 4)]:
+            for o in options:
+                if o.is_initial(s):
+                    out.append([s, o.name, smdp.next_state_transit_time_reward_dist(s, o)])
+        out.append(["again", smdp.next_state_transit_time_reward_dist(sl[0], options[-1])])
+        return out
+    return call
 
 
 def c_implicit(spec, seed, par):
@@ -328,13 +364,19 @@ def c_implicit(spec, seed, par):
 
     def func(rng):
         return (words[int(rng.random() * len(words))], rng.randint(0, 2))
-    d = ImplicitDistribution(func, n_samples=n, _seed=seed)
-    out = {"items": dict(d.items()), "samples": [d.sample() for _ in range(5)],
-           "expectation": d.expectation(lambda e: e[1] * 0.3 + len(str(e[0])))}
-    d2 = ImplicitDistribution(func, n_samples=n, _seed=seed)
-    out["marginal"] = dict(d2.marginalize(lambda e: e[0]).items())
-    out["conditioned"] = dict(d2.condition(lambda e: e[1] != 1).items())
-    return out
+
+    def call():
+        # an ImplicitDistribution is itself the seeded generator (sample() must advance it), so the per-call entry
+        # point here is "construct from the seed, then a fixed sequence of queries"
+        # (extract_sites.AUDITED_STATEFUL; msdm's own tests draw repeatedly from one ImplicitDistribution object)
+        d = ImplicitDistribution(func, n_samples=n, _seed=seed)
+        out = {"items": dict(d.items()), "samples": [d.sample() for _ in range(5)],
+               "expectation": d.expectation(lambda e: e[1] * 0.3 + len(str(e[0])))}
+        d2 = ImplicitDistribution(func, n_samples=n, _seed=seed)
+        out["marginal"] = dict(d2.marginalize(lambda e: e[0]).items())
+        out["conditioned"] = dict(d2.condition(lambda e: e[1] != 1).items())
+        return out
+    return call
 
 
 def c_mdp_rollout(spec, seed, par):
@@ -342,11 +384,14 @@ def c_mdp_rollout(spec, seed, par):
     from msdm.core.distributions import DictDistribution
     mdp = build_problem(spec)
     policy = FunctionalPolicy(lambda s: DictDistribution.uniform(mdp.actions(s)))
-    run = policy.run_on(mdp, max_steps=par.get("max_steps", 25), rng=_random.Random(seed))
-    ev = policy.evaluate_on(mdp, n_simulations=par.get("nsim", 8), max_steps=par.get("max_steps", 25), rng=_random.Random(seed))
-    return {"run": run, "state_value": dict(ev.state_value.items()), "initial_value": ev.initial_value,
-            "action_value": {s: dict(av.items()) for s, av in ev.action_value.items()},
-            "occupancy": dict(ev.state_occupancy.items())}
+
+    def call():          # same policy object, an EQUALLY SEEDED generator per call (the property's hypothesis)
+        run = policy.run_on(mdp, max_steps=par.get("max_steps", 25), rng=_random.Random(seed))
+        ev = policy.evaluate_on(mdp, n_simulations=par.get("nsim", 8), max_steps=par.get("max_steps", 25), rng=_random.Random(seed))
+        return {"run": run, "state_value": dict(ev.state_value.items()), "initial_value": ev.initial_value,
+                "action_value": {s: dict(av.items()) for s, av in ev.action_value.items()},
+                "occupancy": dict(ev.state_occupancy.items())}
+    return call
 
 
 def c_pomdp_rollout(spec, seed, par):
@@ -359,8 +404,11 @@ def c_pomdp_rollout(spec, seed, par):
     norm = lambda a: a / a.sum(-1, keepdims=True)
     policy = StochasticFiniteStateController(pomdp, norm(g.uniform(1, 2, (nc, nactions))),
                                              norm(g.uniform(1, 2, (nc, nactions, nobs, nc))), norm(g.uniform(1, 2, (nc,))))
-    traj = policy.run_on(pomdp, max_steps=par.get("max_steps", 12), rng=_random.Random(seed))
-    return {"traj": traj}
+
+    def call():
+        traj = policy.run_on(pomdp, max_steps=par.get("max_steps", 12), rng=_random.Random(seed))
+        return {"traj": traj}
+    return call
 
 
 COMPONENTS = {"laostar": c_laostar, "lrtdp": c_lrtdp, "astar": c_astar, "bfs": c_bfs, "td": c_td, "rmax": c_rmax,
@@ -368,18 +416,24 @@ COMPONENTS = {"laostar": c_laostar, "lrtdp": c_lrtdp, "astar": c_astar, "bfs": c
               "mdp_rollout": c_mdp_rollout, "pomdp_rollout": c_pomdp_rollout}
 
 
-def bracket(fn, case):
-    """one run bracketed by global-generator snapshots"""
+def render(val):
+    c = canon(val)
+    r = {"digest": digest(c), "ordered_digest": digest(canon(val, ordered=True))}
+    txt = json.dumps(c, sort_keys=True)
+    if len(txt) <= 6000:
+        r["canon"] = c
+    else:
+        r["canon_head"] = txt[:1500]
+    return r
+
+
+def bracket(thunk):
+    """one run bracketed by global-generator snapshots; thunk() -> (rendered result, anything to keep)"""
     before = snapshot()
+    keep = None
     try:
-        val = fn(case["problem"], case["seed"], case.get("params", {}))
-        c = canon(val)
-        r = {"digest": digest(c), "ordered_digest": digest(canon(val, ordered=True))}
-        txt = json.dumps(c, sort_keys=True)
-        if len(txt) <= 6000:
-            r["canon"] = c
-        else:
-            r["canon_head"] = txt[:1500]
+        val, keep = thunk()
+        r = render(val)
     except BaseException as e:
         if isinstance(e, (KeyboardInterrupt, SystemExit)):
             raise
@@ -387,21 +441,35 @@ def bracket(fn, case):
         r = {"error": type(e).__name__ + ": " + str(e)[:300], "trace": traceback.format_exc()[-1200:]}
     after = snapshot()
     r["globals_changed"] = [k for k in ("random", "numpy", "torch") if before[k] != after[k]]
-    return r
+    return r, keep
 
 
 def one(case, pl):
     fn = COMPONENTS[case["component"]]
+
+    holder = {}
+
+    def fresh():
+        call = fn(case["problem"], case["seed"], case.get("params", {}))     # construction is part of the run
+        holder["call"] = call
+        return call(), call
+
     out = {"hashseed": os.environ.get("PYTHONHASHSEED"), "str_hash_probe": hash("msdm-c13-probe") & 0xffff}
     set_globals(1)
-    out["A"] = bracket(fn, case)
-    out["B"] = bracket(fn, case)
+    out["A"], _ = bracket(fresh)
+    call = holder.get("call")
+    if call is not None:
+        # run R: a SECOND call of the per-call entry point on the SAME planner / learner / policy / semi-MDP object
+        out["R"], _ = bracket(lambda: (call(), None))
+    else:
+        out["R"] = {"error": "NoObject: first run raised before the object existed", "globals_changed": []}
+    out["B"], _ = bracket(fresh)
     out["C"] = []
     for k in range(2, 2 + int(case.get("scrambles", 1))):
         set_globals(k)
-        out["C"].append(bracket(fn, case))
+        out["C"].append(bracket(fresh)[0])
     set_globals(1)
-    out["D"] = bracket(fn, case)
+    out["D"], _ = bracket(fresh)
     return out
 
 
